@@ -11,11 +11,11 @@ NOTE = ("bounded: only the listed alphabets (names, values, options) and histori
         "fix-point; trusted: CPython, the explorer, strict observation (provmc/observe.py), the reference model")
 
 CLAIMED = {
-    "C01": ("Every document reachable by <= depth calls of a 57-letter alphabet (namespace declarations at document "
-            "and bundle level, every name spelling, elements, relations, attributes) and every case of the cartesian "
-            "shape sweep (12 namespace environments x 55 record shapes x id modes x all value kinds x json.dump "
+    "C01": ("Every document reachable by <= depth calls of the document alphabet (about 65 letters, DESIGN 12.2: namespace declarations at document "
+            "and bundle level, bundles created and attached, every name spelling, elements, relations, attributes, in-place editors) and every case of the cartesian "
+            "shape sweep (14 namespace environments x 55 record shapes x id modes x all value kinds and attribute-name classes x json.dump "
             "options) is written as PROV-JSON, read back and compared strictly (URI level, kind-aware, multiset). "
-            "Exhaustive within the stated alphabet and bound, nothing sampled.", TECH + "; exhaustive shape sweeps", NOTE),
+            "Exhaustive within the stated alphabet and bound, nothing sampled.  One recorded finding (F44, two bundles printing alike) is reported as KNOWN-FINDING.", TECH + "; exhaustive shape sweeps", NOTE),
     "C03": ("All interleavings of add_namespace / set_default_namespace / valid_qualified_name (QualifiedName "
             "objects, prefix:local, bare and full-URI strings, clashing / alias / generated-looking prefixes, nested "
             "URIs) are explored on the real NamespaceManager: one scope to a fix-point of the canonical state (verdict "
@@ -25,27 +25,27 @@ CLAIMED = {
     "C18": ("Every state reachable by <= depth record-adding calls (factories in every spelling, new_record, "
             "add_record, update, on a document and a bundle) and every container derived from it by constructor / "
             "unified / flattened / update / add_bundle / JSON / XML reload is probed with every spelling of every "
-            "present identifier and absent ones; get_record, get_records(cls) and records are compared with a scan "
+            "present identifier and absent ones (questions that cannot register a namespace first), also after the transformations and exporters have read the container; look-ups of unresolvable names are part of the histories; get_record, get_records(cls) and records are compared with a scan "
             "of the record list.", TECH, NOTE),
     "C08": ("Every document reachable by <= depth record/attribute additions that make identifiers collide (same "
             "identifier through a prefix, an alias prefix and the full URI; entity/agent/activity; generation/usage; "
             "conflicting times and activities; document and bundle) is unified and compared with a reference "
             "unification computed on strict observations: result content and order, refusal iff a single-valued "
             "conflict exists, idempotence, bundle-level unified(), source unchanged.", TECH, NOTE),
-    "C09": ("All states of a 17-letter document alphabet to depth 3 are collected; for every ordered pair (d, other) "
+    "C09": ("All states of a 20-letter document alphabet to depth 3 are collected; for every ordered pair (d, other) "
             "every sequence of up to 2 (thorough 3) operations from update / add_bundle (document, no identifier, "
-            "duplicate identifier, stand-alone bundle) / flattened is executed on fresh replays and compared step by "
+            "duplicate identifier as object and as string, stand-alone bundle, bundle under another identifier, unresolvable identifier) / flattened is executed on fresh replays and compared step by "
             "step with multiset arithmetic on strict observations; other must stay unchanged, refusals must leave d "
             "unchanged, and the result must survive a PROV-JSON round trip.", TECH, NOTE),
     "C12": ("All states of a 13-letter alphabet x every deriving operation (record copy, add_record, constructor, "
-            "update, add_bundle(document), unified, flattened, JSON/XML reload) x every follow-up mutation (attribute "
+            "into another and into the own container, update, add_bundle(document), unified, flattened, JSON/XML reload) x every follow-up mutation (attribute "
             "on each record, new record, add_namespace incl. clashing, set_default_namespace, bundle(), the same "
             "inside each bundle) x side mutated (thorough: x a second mutation on the other side); the untouched "
             "side's ordered strict content and namespace observation must not change.", TECH, NOTE),
-    "C04": ("For every state of the 57-letter document alphabet to depth 3 (thorough 4) and every single-record shape, "
+    "C04": ("For every state of the document alphabet to depth 3 (thorough 4) and every single-record shape, "
             "the family of all one-step content-preserving variants (rotations, reversal, prefix renaming, record "
             "duplication, rebuild, JSON/XML reload) and content-changing edits (identifier, kind, attribute value / "
-            "name / presence, record, bundle, bundle identifier, record placement) is realised through the public API; "
+            "name / presence / kind, record, bundle, bundle identifier, record placement; the base edited in place after it was hashed) is realised through the public API; "
             "== / != are evaluated on every ordered pair of documents, bundles and records of the family and compared "
             "with set equality of strict observations; symmetry, reflexivity, transitivity over all triples, hash "
             "consistency; scripts/prov-compare is run as a subprocess on a subset in both argument orders.", TECH, NOTE),
@@ -53,16 +53,16 @@ CLAIMED = {
             "(PROV-JSON x options, PROV-XML x force_types, RDF, PROV-N, DOT x options, graph, ==, hash, unified, "
             "flattened; longer sequences on shallower states): after every call the ordered strict content and the "
             "namespace observation must be unchanged; the same export repeated, and on a twin document built by the "
-            "same calls, must give identical output (RDF under deterministic blank-node labels, else isomorphic).",
+            "same calls, must give identical output (RDF under deterministic blank-node labels, else isomorphic); PROV-JSON text must be what the json module prints for the same data under the options of that very call; exports interleaved with construction must not influence the final exports.",
             TECH, NOTE),
-    "C05": ("Full product of 18 record kinds x 4 creation paths x every accepted representation of each formal "
-            "argument (record object, QualifiedName, prefix:local, full URI, Identifier; datetime, ISO string) x "
+    "C05": ("Full product of 18 record kinds x 5 creation paths (typed factory, element convenience method, new_record x 3) x every accepted representation of each formal "
+            "argument (record object, QualifiedName, prefix:local, full URI, Identifier; datetime, ISO string, typed literal) x "
             "optional-argument masks, each followed by every sequence of <= 1 (thorough 2) follow-up additions "
             "(same value, same value in another representation, different value, unparsable value; add_attributes "
             "dict / pair list / set_time), executed in lock-step with a reference record: normal-form invariant after "
             "every call, refusal iff a different value is offered for a filled formal attribute, refusals change "
             "nothing; plus 1320 literal-vs-native cases over every attribute class and entry path.", TECH, NOTE),
-    "C02": ("Same enumerations as C01 (history exploration of the 57-letter alphabet; cartesian shape sweep over 12 "
+    "C02": ("Same enumerations as C01 (history exploration of the document alphabet; cartesian shape sweep over 14 "
             "namespace environments x 55 record shapes x id modes x all value kinds x prov:type/label/value/location/"
             "role and user attributes) restricted by the quantifier's expressibility clauses X1-X4 (each counted), "
             "written as PROV-XML with force_types False and True, read back and compared strictly.",
@@ -76,16 +76,16 @@ CLAIMED = {
             NOTE + "; the independent readers (validated by a differential run over the 398 JSON + 44 XML corpus files: "
             "agreement except the J1-excluded 1/True attribute sets) are trusted"),
     "C06": ("The C01 enumerations (history exploration + shape sweep over all record shapes, argument masks, id modes, "
-            "value kinds, namespace environments) under the quantifier's PROV-N clauses N1-N3 (each counted): the text "
+            "value kinds, namespace environments) under the quantifier's PROV-N clauses N1 and N3 (each counted): the text "
             "of get_provn()/serialize('provn') must parse under the W3C PROV-N grammar with an independent hand-written "
             "tokenizer + recursive-descent parser (markers only in optional positions, id; only on relations, "
             "declarations first, bundles last, ECHAR escapes, typed / language literals) and the parsed document must "
             "equal the strict observation of the original.", TECH + "; independent PROV-N parser as oracle",
             NOTE + "; the PROV-N parser (written from the grammar as recalled in DESIGN appendix A.1) is trusted"),
-    "C14": ("Every bundle-free document reachable by <= depth calls of a 21-letter alphabet (declared and undeclared "
+    "C14": ("Every bundle-free document reachable by <= depth calls of a 28-letter alphabet (declared and undeclared "
             "endpoints, entity+agent under one identifier, eight relation kinds, self-loops, parallel duplicates, "
             "identified/anonymous, missing endpoints, attributes) is converted with prov_to_graph and compared with a "
-            "reference graph computed from the reference unification: node multiset, inferred nodes, edge multiset "
+            "reference graph computed from the reference unification (after two decoy documents using the same names in other roles were converted): node multiset, inferred nodes and their kinds, edge multiset "
             "with endpoints by URI and the carried relation, MultiDiGraph-ness; graph_to_prov must return the unified "
             "document restricted to elements and two-ended relations.", TECH, NOTE),
     "C15": ("A product of 29 graph structures (n-ary, annotated, one-ended, parallel, self-loop, 0-2 bundles sharing URIs "
@@ -95,19 +95,19 @@ CLAIMED = {
             "accept the text and the parsed structure (clusters, element nodes per unified record and cluster, generic "
             "nodes, relation paths, n-ary legs, annotation tables, HTML-like label skeletons and texts) must equal the "
             "expectation.", TECH + "; Graphviz as independent DOT reader", NOTE + "; Graphviz 2.43 is trusted as DOT and HTML-like label parser"),
-    "C16": ("Full product of 12 documents (non-ASCII identifiers and values, bundles, 20 kB string; inside the C01/C02/"
-            "C07 spaces) x 4 formats x 4 destinations (returned str, text stream, binary stream, path) compared "
-            "pairwise (bytes = UTF-8 of the text; XML by canonical form), then x 7 sources (content str/bytes, text/"
-            "binary stream seekable and non-seekable, path) x up to 4 readers (deserialize, prov.read with format in "
+    "C16": ("Full product of 14 documents (non-ASCII identifiers and values, bundles, 20 kB string, dense non-ASCII, Unicode line separators; inside the C01/C02/"
+            "C07 spaces) x 4 formats + 3 writer-option variants x 6 destinations (returned str, StringIO, GB18030 text file, tempfile text wrapper, binary stream, path with non-ASCII and %XX in its name) compared "
+            "pairwise (bytes = UTF-8 of the text; XML by canonical form), then x 9 sources (content str/bytes, text/"
+            "binary stream seekable and non-seekable, GB18030 text file, tempfile text wrapper, path) x up to 4 readers (deserialize, prov.read with format in "
             "either case, prov.read without format - an exploration of the stream position its detection attempts "
             "leave behind); PROV-N must not be read back.", "exhaustive enumeration of the finite product of documents, "
             "formats, destination kinds, source kinds and readers on the real API (environment-answer enumeration)", NOTE),
     "C17": ("Fault enumeration at the system-call boundary (LD_PRELOAD shim native/faultfs.c interposing write, rename*, "
             "sendfile, copy_file_range, open*, unlink, fsync for sandbox paths): full product of 4 formats x document "
-            "sizes (1, several, many write calls) x 10 destination names (relative, absolute, space, non-ASCII, '#', '?', "
-            "';', ':', sub-directory) x pre-existing/absent x every schedule with <= 1 (thorough 2) deviations from the "
-            "fault-free call sequence: k-th write fails or is short for every k, the move fails or answers EXDEV and the "
-            "copy fallback's steps fail, temp-file removal fails, the serialiser itself raises.  Success must create "
+            "sizes (1, several, many write calls) x 14 destination names (relative, absolute, space, non-ASCII, '#', '?', '%20', '%', '&', '~', "
+            "';', ':', sub-directory; given as str, pathlib.Path and bytes) x pre-existing/absent x every schedule with <= 1 (thorough 2) deviations from the "
+            "fault-free call sequence: k-th write fails or is short for every k, the move fails once, fails every time (EACCES / EPERM) or answers EXDEV and the "
+            "copy fallback's steps fail, close fails, temp-file removal fails, the serialiser itself raises.  Success must create "
             "exactly the named file with exactly the BytesIO bytes and touch nothing else; failure must reach the caller "
             "and leave the named file byte-identical.",
             "exhaustive fault/crash-point enumeration at the libc boundary on the real write path (deviation-bounded: "
@@ -122,14 +122,14 @@ CLAIMED = {
             "unified(), no exception, verdict independent of blank-node order.", TECH + "; exhaustive shape sweeps; "
             "blank-node order as an enumerated environment dimension",
             NOTE + "; rdflib is exercised, not verified; two sub-spaces that PROV-O cannot distinguish are filtered and "
-            "counted (R0: identified alternate/specialization/membership, R8b: plain + qualified association to the same "
-            "agent), see DESIGN.md"),
+            "counted (R0: identified alternate/specialization/membership, R3b, R8b: plain + qualified association to the same "
+            "agent, R10: PROV argument name foreign to the record kind), see DESIGN.md 12.4"),
     "C11": ("(a) Specification-driven generation: the reference documents of the shape sweep are written by foreign "
             "PROV-JSON / PROV-XML writers (provmc/indep, not the library's) in every dialect with <= 1 (thorough 2) "
             "deviations from the base spelling (wrapped values / formal arguments / records, multi-entity membership, "
             "every literal spelling, prefix blocks on document and/or bundle, key order, default namespace; XML: subtype "
             "elements, xsi:type on records, redundant string types, nested declarations, other xsd prefix, comments, "
-            "prov:other ...), each deviation everywhere and at its first/last site.  (b) Every single-point mutant of the "
+            "prov:other, comments / processing instructions / CDATA / character references inside values and outside the document element, empty language tag, end-of-day time spelling, xsi:type on time elements, non-UTF-8 declaration in decoded text ...), each deviation everywhere and at its first/last site.  (b) Every single-point mutant of the "
             "398 JSON + 44 XML corpus files under the five operators of the quantifier.  Every text is loaded: a library "
             "error, or a document that is stable under re-serialisation in the same and the other format and equals the "
             "reference document / the independent reader's reading of the text.",
